@@ -57,12 +57,14 @@ OTHER = {
 }
 
 
-def build():
+def build(exclude=()):
     text = vmenv.prelude([U1SPEC, os.path.join(HERE, 'spec.rs')])
     text += "\nimpl VmGreenThread {\n"
     meta = {}
     rewrites = {'R2': 0, 'R3': 0, 'R4': 0, 'R7': 0, 'proof_splices': 0}
     for name, o in OTHER.items():
+        if name in exclude:
+            continue
         arm = S.step_arm(name)
         body = arm['body']
         body, k = vmenv.apply_R2(body)
@@ -82,6 +84,8 @@ def build():
         text += vmenv.lift(a2, o['contract'])
         meta[name] = dict(contract=o['contract'], sha=S.sha(arm['raw']))
     for name in CMP:
+        if name in exclude:
+            continue
         arm = S.step_arm(name)
         body = arm['body']
         body, k = vmenv.apply_R3(body, 'bool')
@@ -111,9 +115,15 @@ def run(tier="quick"):
     sc = E.Scratch("u3")
     obs = []
     try:
-        text, meta, rewrites = build()
-        path = sc.file("u3_str.rs", text)
-        res = E.run_verus(path)
+        state = {}
+
+        def _b(exclude):
+            t, m, r = build(exclude)
+            state['meta'], state['rewrites'] = m, r
+            return t
+        allnames = set(CMP) | set(OTHER)
+        text, res, excluded = vmenv.verify_isolating(_b, allnames, sc, "u3_str.rs")
+        meta, rewrites = state['meta'], state['rewrites']
         lines = E.fn_line_ranges(text)
         errs_by_fn = {}
         for e in res['errors']:
@@ -125,6 +135,10 @@ def run(tier="quick"):
             f = [v for k, v in cres['functions'].items() if k.endswith("::arm_" + name)]
             if not f or f[0]['success']:
                 vac.append(name)
+        for name in excluded:
+            props = PROPS_CMP if name in CMP else OTHER[name]['props']
+            oid = "%s.vm.%s.%s" % (props[0], name, "step" if (name in CMP or name == 'ConcatStrings') else "post")
+            obs.append(E.Obligation(oid, props, UNIT, "VmGreenThread::step arm Instr::" + name, "verus/z3", E.UNDECIDED, excluded[name], 0, V, "", None, ""))
         for name in meta:
             f = [v for k, v in res['functions'].items() if k.endswith("::arm_" + name)]
             props = PROPS_CMP if name in CMP else OTHER[name]['props']
@@ -149,6 +163,13 @@ def run(tier="quick"):
                                         E.DISCHARGED if v['success'] else E.FAILED, "\n".join(errs_by_fn.get(short, [])),
                                         v['time_s'], "verif/units/u3_str/spec.rs", "", None,
                                         "lexicographic byte order: decision by first differing byte; total order laws", rlimit=v['rlimit']))
+        if any(o.status == E.UNDECIDED for o in obs):
+            # an arm is outside the verifier's reach on this tree: bounded stand-in on the real CLI
+            bad, note = cli_differential()
+            obs.append(E.Obligation("C17.cli.string_ops.sampled", ["C17", "C10", "C24", "C01"], UNIT, "string operators on the real CLI", "bounded: differential run",
+                                    E.FAILED if bad else E.DISCHARGED, ("real CLI disagrees with byte order / concatenation: %r" % (bad,)) if bad else "",
+                                    0, V, "", "fixed sample of %d string pairs (empty, prefix-related, multi-byte at every offset around 16/32-byte boundaries)" % note,
+                                    "every comparison operator and `..` on all sample pairs against Python's byte order; runs only when a string arm could not be verified"))
         info = dict(
             assumptions=vmenv.ASSUMED + [
                 "verus/U3: str_bytes(v) — the content of a string object is a function of the pointer value (string objects are immutable and stay alive while referenced: liveness is C06's obligation)",
@@ -166,17 +187,45 @@ def run(tier="quick"):
 # ------------------------------------------------------------------ replay
 import abra_cli
 
-SAMPLES = ["", "a", "b", "ab", "abc", "abd", "b", "aa", "aé", "é", "éa", "z", "\U0001F600", "a\U0001F600", "ab ", "A", "aB"]
+SHORT = ["", "a", "b", "ab", "abc", "abd", "aa", "a\u00e9", "\u00e9", "\u00e9a", "z", "\U0001F600", "a\U0001F600", "ab ", "A", "aB"]
+
+
+def _long_samples():
+    out = []
+    for L in (14, 15, 16, 17, 31, 32, 33, 47, 48, 49):
+        out.append("x" * L)
+        out.append("x" * (L - 1) + "\u00e9" + "!")      # 2-byte char straddling / next to offset L
+        out.append("x" * (L - 2) + "\u4e16" + "y")      # 3-byte char
+        out.append("x" * (L - 1) + "\U0001F600")        # 4-byte char
+    return out
 
 
 def _lit(s):
     return '"' + s.replace('\\', '\\\\').replace('"', '\\"') + '"'
 
 
+def cli_differential():
+    """(first mismatch or None, number of pairs).  All six comparisons and `..` on the real CLI."""
+    longs = _long_samples()
+    pairs = [(x, y) for x in SHORT for y in SHORT] + [(x, y) for x in longs for y in ("", "<<", "\u00e9", longs[0])] + [(y, x) for x in longs for y in ("", "a")]
+    lines = ["fn f(a: string, b: string) {",
+             "  println((a == b) .. \" \" .. (a != b) .. \" \" .. (a < b) .. \" \" .. (a <= b) .. \" \" .. (a > b) .. \" \" .. (a >= b) .. \" [\" .. (a .. b) .. \"]\")",
+             "}"]
+    for x, y in pairs:
+        lines.append("f(%s, %s)" % (_lit(x), _lit(y)))
+    out, err, rc = abra_cli.run_program("\n".join(lines) + "\n", timeout=300)
+    got = out.split("\n")
+    for i, (x, y) in enumerate(pairs):
+        xb, yb = x.encode(), y.encode()
+        want = "%s %s %s %s %s %s [%s]" % tuple([str(v).lower() for v in (xb == yb, xb != yb, xb < yb, xb <= yb, xb > yb, xb >= yb)] + [x + y])
+        g = got[i] if i < len(got) and got[i] != "" or i < len(got) - 1 else "<no output: %s>" % err.strip().split("\n")[0][:200]
+        if g != want:
+            return dict(a=x, b=y, real_output=g, expected=want), len(pairs)
+    return None, len(pairs)
+
+
 def replay(ob):
-    """Verus gives no counterexample.  Search for a failing input on the real CLI: every
-    comparison operator and `..` on all pairs of a fixed sample (empty, prefix-related,
-    multi-byte) against Python's byte order; string_nth_byte at and past the end."""
+    """Verus gives no counterexample.  Search for a failing input on the real CLI."""
     m = re.search(r'Instr::(\w+)', ob.function)
     name = m.group(1) if m else ""
     if name == 'StringNthByte':
@@ -185,19 +234,8 @@ def replay(ob):
         bad = ("panicked" in err) or (rc not in (0, 1)) or ("indexed past the end" not in (out + err))
         return (True if bad else None), dict(program=prog, real_output=(out + err)[:600],
                                              expected="99 then the array-out-of-bounds runtime error")
-    lines = ["fn f(a: string, b: string) {",
-             "  println((a == b) .. \" \" .. (a != b) .. \" \" .. (a < b) .. \" \" .. (a <= b) .. \" \" .. (a > b) .. \" \" .. (a >= b) .. \" [\" .. (a .. b) .. \"]\")",
-             "}"]
-    pairs = [(x, y) for x in SAMPLES for y in SAMPLES]
-    for x, y in pairs:
-        lines.append("f(%s, %s)" % (_lit(x), _lit(y)))
-    out, err, rc = abra_cli.run_program("\n".join(lines) + "\n", timeout=120)
-    got = out.split("\n")
-    for i, (x, y) in enumerate(pairs):
-        xb, yb = x.encode(), y.encode()
-        want = "%s %s %s %s %s %s [%s]" % tuple([str(v).lower() for v in (xb == yb, xb != yb, xb < yb, xb <= yb, xb > yb, xb >= yb)] + [x + y])
-        g = got[i] if i < len(got) else "<missing: %s>" % err[:200]
-        if g != want:
-            ob.cex = dict(a=x, b=y)
-            return True, dict(input=dict(a=x, b=y), real_output=g, expected=want)
-    return None, dict(note="no failing input among %d sample pairs on the real CLI" % len(pairs))
+    bad, n = cli_differential()
+    if bad:
+        ob.cex = dict(a=bad['a'], b=bad['b'])
+        return True, bad
+    return None, dict(note="no failing input among %d sample pairs on the real CLI" % n)
